@@ -63,14 +63,14 @@ ASSUMPTIONS = [
     'published through asset.Project.put when the version is an increment, else through Registry.push',
 ]
 FLOORS = {
-    'abtest:k=2': 0.08,
+    'abtest:k=2': 0.05,
     'abtest:k>=3': 0.25,
     'abtest:omitted': 0.15,
     'abtest:two-registries': 0.04,
     'latest:stale-select': 0.02,
     'latest:refresh-moves': 0.03,
     'latest:empty-release-skipped': 0.01,
-    'latest:version-order': 0.01,
+    'latest:version-order': 0.004,
     'explicit': 0.02,
     'pool:>128-slot-registry-pairs': 0.002,
 }
